@@ -1106,12 +1106,12 @@ func (v *FV) appendOp(fr *Frame, st *State, in ssa.Value, cc *ssa.CallCommon, po
 	if e.Sort == "Slice" {
 		elen := fmt.Sprintf("(sl_len %s)", e.T)
 		newLen = v.iadd(slen, elen)
-		v.emit(fmt.Sprintf("(assert (forall ((i %s)) (! (=> (and (%s %s i) (%s i %s)) (= (select %s i) (select (select %s (sl_arr %s)) %s))) :pattern ((select %s i)))))",
-			v.idx(), le, z, lt, slen, contents, h, s.T, v.iadd(fmt.Sprintf("(sl_off %s)", s.T), "i"), contents))
-		v.emit(fmt.Sprintf("(assert (forall ((i %s)) (! (=> (and (%s %s i) (%s i %s)) (= (select %s %s) (select (select %s (sl_arr %s)) %s))) :pattern ((select (select %s (sl_arr %s)) %s)))))",
-			v.idx(), le, z, lt, elen, contents, v.iadd(slen, "i"), h, e.T, v.iadd(fmt.Sprintf("(sl_off %s)", e.T), "i"), h, e.T, v.iadd(fmt.Sprintf("(sl_off %s)", e.T), "i")))
+		v.emit(fmt.Sprintf("(assert (forall ((i %s)) (! (=> (and (%s %s i) (%s i %s)) (= (select %s i) %s)) :pattern ((select %s i)))))",
+			v.idx(), le, z, lt, slen, contents, v.sliceElem(h, es, s.T, "i"), contents))
+		v.emit(fmt.Sprintf("(assert (forall ((i %s)) (=> (and (%s %s i) (%s i %s)) (= (select %s %s) %s))))",
+			v.idx(), le, z, lt, elen, contents, v.iadd(slen, "i"), v.sliceElem(h, es, e.T, "i")))
 		// single-element appends (the common case) get a direct equation
-		v.emit(fmt.Sprintf("(assert (=> (= %s %s) (= (select %s %s) (select (select %s (sl_arr %s)) (sl_off %s)))))", elen, v.idxLit(1), contents, slen, h, e.T, e.T))
+		v.emit(fmt.Sprintf("(assert (=> (= %s %s) (= (select %s %s) %s)))", elen, v.idxLit(1), contents, slen, v.sliceElem(h, es, e.T, v.idxLit(0))))
 	} else if e.Sort == "Str" {
 		elen := fmt.Sprintf("(str_len %s)", e.T)
 		newLen = v.iadd(slen, elen)
